@@ -9,7 +9,7 @@ Coq terms, coqc evaluates the model and the specification oracle on them with vm
 import fcntl, glob, hashlib, json, os, re, subprocess, sys, time
 from concurrent.futures import ThreadPoolExecutor
 
-VERIF = '/verif'
+VERIF = os.environ.get('VERIF_ROOT', '/verif')
 COQ = VERIF + '/coq'
 HARNESS = VERIF + '/harness'
 WORK = VERIF + '/work'
@@ -443,7 +443,7 @@ def finish(cfg, res):
     cov = {
         'obligations': max(res.obligations, 1),
         'discharged': res.discharged,
-        'checker_cmd': 'make -C /verif/coq %s (coqc 8.16.1, full .vo) ; coqc Print Assumptions on every theorem of %s ; '
+        'checker_cmd': 'make -C ' + COQ + ' %s (coqc 8.16.1, full .vo) ; coqc Print Assumptions on every theorem of %s ; '
                        'thorough adds coqchk -o' % (' '.join(f[:-2] + '.vo' for f in cfg['props_files']), ', '.join(cfg['props_files'])),
         'trusted_base': ['Coq 8.16.1 kernel incl. vm_compute (no native_compute)',
                          'axioms reported by Print Assumptions: ' + (', '.join(sorted(res.axioms)) or 'none (closed under the global context)'),
